@@ -216,6 +216,49 @@ func runC02(r *core.Run) {
 			return core.Outcome{Class: fmt.Sprint("len-bucket=", bucket(c.Len)), Nontrivial: c.Len >= 2, Evals: 4}
 		})
 
+	core.Clause(r, "caller-memory", core.Opts{Rule: "Name, Sequence and Quals as adjacent sub-slices of ONE backing buffer in every order, with and without spare capacity: Write/MarshalText leave the caller's buffer untouched and the round trip holds; lengths 0..3; non-trivial = all"},
+		func(emit func(c02Len) bool) {
+			for nl := 0; nl <= 3; nl++ {
+				for sl := 0; sl <= 3; sl++ {
+					for order := 0; order < 6; order++ {
+						for spare := 0; spare < 2; spare++ {
+							emit(c02Len{nl*1000 + sl*100 + order*10 + spare})
+						}
+					}
+				}
+			}
+		},
+		func(c c02Len) core.Outcome {
+			nl, sl, order, spare := c.Len/1000, c.Len/100%10, c.Len/10%10, c.Len%10
+			buf := []byte("abcdefghijklmnopqrstuvwxyz-spare-bytes")
+			lens := [][3]int{{nl, sl, sl}}[0]
+			perm := [][3]int{{0, 1, 2}, {0, 2, 1}, {1, 0, 2}, {1, 2, 0}, {2, 0, 1}, {2, 1, 0}}[order]
+			var parts [3][]byte
+			off := 0
+			for _, which := range perm {
+				parts[which] = buf[off : off+lens[which]]
+				if spare == 0 {
+					parts[which] = parts[which][:lens[which]:lens[which]]
+				}
+				off += lens[which]
+			}
+			before := bytes.Clone(buf)
+			want := fqRec{core.S(parts[0]), core.S(parts[1]), core.S(parts[2])}
+			f := &fastq.Fastq{Name: parts[0], Sequence: parts[1], Quals: parts[2]}
+			var w bytes.Buffer
+			if p := catch(func() { f.Write(&w); f.MarshalText() }); p != "" {
+				return core.Failf("panic: %s", p)
+			}
+			if !bytes.Equal(buf, before) {
+				return core.Failf("Write/MarshalText modified the caller's memory: %q became %q", before, buf)
+			}
+			got, p := readFastqAll(w.Bytes())
+			if p != "" || !sameShape(got, wantFastq([]fqRec{want})) {
+				return core.Failf("record %v with fields sharing one buffer is written as %q and read back as %s %s", want, w.Bytes(), renderObs(got), p)
+			}
+			return core.Outcome{Class: fmt.Sprint("order=", order, " spare=", spare), Nontrivial: true, Evals: 3}
+		})
+
 	marshalHistories(r, "fastq", func() []marshaller {
 		var out []marshaller
 		for _, rc := range []fqRec{{"a", "ACGT", "IIII"}, {"", "", ""}, {"longer name", core.S(longSeq(170)), core.S(longSeq(170))}, {"@", "+", "@"}, {"b", core.S(longSeq(33)), core.S(longSeq(33))}, {"c", "AC", "+I"}} {
